@@ -3,15 +3,16 @@ from verifkit.runner import Stream
 from verifkit.props import serde_types as T
 
 ID = "C17"
-THM_MODULES = ["Minicbor.Thm.C17"]
+THM_MODULES = ["Minicbor.Thm.C17", "Minicbor.Thm.Narrow"]
 P = "Minicbor.C17."
 REQUIRED = [P + n for n in """ser_eq_encW toW_valid ser_wellformed ser_representation
 roundtrip_plain roundtrip_content roundtrip_partial roundtrip_statement_false flatChar_not_good
 fromC_rt flat_rt itag_rt atag_rt untagged_rt hasT_ok
 option_in_option_counterexample char_behind_content_counterexample unit_behind_content_counterexample content_roundtrip_examples
 unknown_struct_fields_ignored indefinite_seq_accepted indefinite_map_accepted indefinite_struct_accepted
-de_any_consumes_one_item de_any_on_ser roundtrip_skipped_fields""".split()]
-PACKAGES = ["hserde"]
+de_any_consumes_one_item de_any_on_ser roundtrip_skipped_fields""".split()] + \
+           ["Minicbor.NarrowThm.narrow_widen", "Minicbor.NarrowThm.narrow_widen_fields", "Minicbor.NarrowThm.rneShift_exact"]
+PACKAGES = ["hserde", "hcore"]
 RULE = ("rt <type> <value>: ~100 serde types (std + derived: every Serializer/Deserializer method, externally / internally / adjacently tagged, "
         "untagged, flatten, bytes newtype, unknown-length seq/map, fields skipped at run time by skip_serializing_if in structs and struct variants, "
         "alone and inside Vec / tuple / struct) x type-directed values (integers dense at width edges 2^k±3, containers of "
@@ -161,6 +162,13 @@ def streams(rng, tier):
         for name in ("Untagged", "f64", "f32", "vec_untagged"):
             h = "fa%08x" % f32
             hostile.append(f"de {name} {'81' + h if name == 'vec_untagged' else h} #m=mut")
+    # an f64 item where an f32 is read behind the Content buffer (flatten): serde's visitor narrows it with `as f32`
+    fd = T.spec_enc(T.gen_val(rng, TREES["FlatDeep"]))
+    k = fd.find(b"\x61f\xfa")
+    if k >= 0:
+        for b64 in (0x3ff0000000000000, 0x3ff0000010000000, 0x3ff0000030000000, 0x7fefffffffffffff, 0x36a0000000000000, 0x3690000000000001,
+                    0x7ff8000000000001, 0xfff0000000000000, 0x47efffffe0000000, 0x47effffff0000000, 0x8000000000000001):
+            hostile.append(f"de FlatDeep {T.hx(fd[:k + 2] + bytes([0xfb]) + b64.to_bytes(8, 'big') + fd[k + 7:])} #m=mut")
     for f16 in (0x0000, 0x8000, 0x3c00, 0x7c00, 0xfc00, 0x7e00, 0x7c01, 0xfc01, 0x0001, 0x7bff):
         for name in ("Untagged", "f64", "f32"):
             hostile.append(f"de {name} f9{f16:04x} #m=mut")
@@ -178,13 +186,87 @@ def streams(rng, tier):
     s3 = Stream("hostile", "hserde", hostile, model_ops=[model_op(o) for o in hostile], judge=judge_de,
                 rule="de <type> <strict prefix | one-byte mutation of an encoding>: model comparison, no panic",
                 nontrivial=lambda op, impl: impl.startswith("err"))
-    for s in (s1, s2, s3):
+    s4 = narrow_stream(rng, tier)
+    for s in (s1, s2, s3, s4):
         s.shrinkable = False
-    return [s1, s2, s3]
+    return [s1, s2, s3, s4]
+
+
+def f64_narrow_patterns(rng, tier):
+    """binary64 patterns around everything `as f32` distinguishes: every binary32 value widened, its neighbours, the exact
+    midpoints between neighbouring binary32 values (ties), the overflow threshold, the binary32 subnormal range, NaN payloads"""
+    import struct
+    out = set()
+    def w(b32):                       # exact widening of a finite binary32 pattern
+        return struct.unpack(">Q", struct.pack(">d", struct.unpack(">f", struct.pack(">I", b32))[0]))[0]
+    f32s = set(T.INTERESTING_F32) | {0, 1, 2, 0x007fffff, 0x00800000, 0x00800001, 0x3f800000, 0x3f800001, 0x7f7fffff, 0x7f7ffffe, 0x33800000, 0x00400000}
+    for _ in range(300 if tier == "quick" else 20000):
+        f32s.add(rng.getrandbits(31))
+    for b in f32s:
+        if (b >> 23) & 0xff == 0xff:
+            continue
+        for sign in (0, 1 << 63):
+            x = w(b)
+            for d in (-2, -1, 0, 1, 2):
+                if 0 <= x + d < (0x7ff << 52):
+                    out.add(sign | (x + d))
+            if b + 1 < 0x7f800000:
+                y = w(b + 1)
+                mid = (x + y) // 2          # exponents of neighbours differ by at most one: the integer midpoint of the patterns is the tie
+                if (x + y) % 2 == 0:
+                    for d in (-1, 0, 1):
+                        out.add(sign | (mid + d))
+    # overflow threshold: 2^128 - 2^103 is the tie between the largest finite binary32 and 2^128
+    thr = struct.unpack(">Q", struct.pack(">d", 2.0 ** 128 - 2.0 ** 103))[0]
+    for d in range(-3, 4):
+        out.add(thr + d); out.add((1 << 63) | (thr + d))
+    for e in (0, 1, 0x380, 0x381, 0x36a, 0x369, 0x368, 0x47e, 0x47f, 0x7fe):
+        for m in (0, 1, (1 << 52) - 1, 1 << 51, (1 << 29) - 1, 1 << 28, (1 << 28) + 1, (1 << 29) + (1 << 28), rng.getrandbits(52)):
+            out.add((e << 52) | m); out.add((1 << 63) | (e << 52) | m)
+    for m in (1, 1 << 51, (1 << 51) + 1, (1 << 29), (1 << 29) - 1, (1 << 52) - 1, 1 << 28, rng.getrandbits(52) | 1):
+        out.add((0x7ff << 52) | m); out.add((0xfff << 52) | m)
+    out |= {0x7ff << 52, 0xfff << 52}
+    for _ in range(2000 if tier == "quick" else 200000):
+        out.add(rng.getrandbits(64))
+    return sorted(out)
+
+
+def judge_narrow(op, impl, model, spec):
+    import struct
+    w = op.split(" ")[1:]
+    rs = impl.split(",")
+    if len(rs) != len(w):
+        return "violation"
+    for a, r in zip(w, rs):
+        b = int(a, 16)
+        e, m = (b >> 52) & 0x7ff, b & ((1 << 52) - 1)
+        if e == 0x7ff and m:
+            continue                      # NaN payloads: compared with the model only
+        try:
+            want = struct.unpack(">I", struct.pack(">f", struct.unpack(">d", struct.pack(">Q", b))[0]))[0]
+        except OverflowError:
+            want = 0x7f800000 | ((b >> 63) << 31)
+        if int(r, 16) != want:
+            return "corr"                 # not a property of minicbor: the model of `as f32` would be wrong (or the platform's cast)
+    return "ok" if impl == model else "corr"
+
+
+def narrow_stream(rng, tier):
+    pats = f64_narrow_patterns(rng, tier)
+    ops = ["fnarrow " + " ".join("%016x" % b for b in pats[i:i + 64]) for i in range(0, len(pats), 64)]
+    return Stream("f64-as-f32", "hcore", ops, judge=judge_narrow,
+                  rule="fnarrow: `f64 as f32` (what serde's f32 visitor applies to a buffered f64) on every binary32 value widened, its neighbours, the ties "
+                       "between neighbouring binary32 values, the overflow threshold, the binary32 subnormal range, NaN payloads and random patterns: the "
+                       "model's f64ToF32 (theorem NarrowThm.narrow_widen) against the real cast and CPython's",
+                  nontrivial=lambda op, impl: "," in impl)
 
 
 def replay_streams(rp):
     op = rp.get("original_op") or rp["op"]
+    if op.startswith("fnarrow"):
+        s = Stream("replay", "hcore", [op], judge=judge_narrow)
+        s.shrinkable = False
+        return [s]
     j = judge_rt if op.startswith("rt ") else judge_de
     s = Stream("replay", "hserde", [op], model_ops=[model_op(op)], judge=j)
     s.shrinkable = False
